@@ -315,7 +315,12 @@ class HashClient:
                 "attempts": 0,
             }
             logger.debug("marking server as dead %s", server)
-            self.remove_server(server)
+            try:
+                self.remove_server(server)
+            except ValueError:
+                # already out of rotation: another request that was in flight
+                # to the same server has marked it dead in the meantime
+                pass
         # This client has failed previously, we need to update the metadata
         # to reflect that we have attempted it again
         else:
